@@ -97,6 +97,15 @@ def jobs(tier, seed):
         if kind == 'DRR':
             cfg['smax'] = 3200
         js.append({'harness': 'wc', 'cfg': cfg, 'weight': 30})
+    # other line rates (dyadic 64, and 24 where 8*size/rate is not dyadic)
+    for kind in KINDS:
+        for rate in (64, 24):
+            cfg = {'kind': kind, 'rate': rate, 'table': TABLES[kind], 'flows': [0, 1, 0], 'sorts': 'int'}
+            if kind == 'WFQ' or rate == 24:
+                cfg['float_inexact'] = True
+            if kind == 'DRR':
+                cfg['smax'] = 3200
+            js.append({'harness': 'wc', 'cfg': cfg, 'weight': 10})
     # several flows mapped onto one class (schedulers that take a flow-to-class map)
     for kind in ('SP', 'WFQ', 'VC', 'DRR'):
         for pat in ([5, 6, 5], [5, 5, 6]) if tier == 'quick' else ([5, 6, 5, 6], [5, 5, 6, 6], [6, 5, 5, 5]):
